@@ -69,6 +69,8 @@ class Engine(CoreMixin, ExprMixin, CallMixin, StmtMixin, BuiltinMixin):
         self.spec_names = spec_ns
         self.inline_keys = set(inline_keys) | {"statham.schema.validation.base:Validator.__init__"}
         self.attr_kinds = {"params": ("dict", None)}
+        self.concrete_eval = {"statham.schema.validation:_all_subclasses"}
+        self.set_iterations = []
 
     # ------------------------------------------------------------------ set-up per function
     def reset(self, contract, fi, cname):
@@ -93,6 +95,8 @@ class Engine(CoreMixin, ExprMixin, CallMixin, StmtMixin, BuiltinMixin):
         self._bm = None
         self.spec_state = None
         self.set_src = {}
+        self.set_iterations = []
+        self.dict_known = {}
 
     def contract_allows(self, ecls):
         for names, _ in self.contract.raises + self.contract.may_raise:
@@ -205,6 +209,9 @@ class Engine(CoreMixin, ExprMixin, CallMixin, StmtMixin, BuiltinMixin):
             self.entry_pc = st.pc
             self.cover(fi.node, st, "entry (requires satisfiable)")
             outcomes = self.exec_block(st, fi.node.body)
+            if any(isinstance(x, (ast.Yield, ast.YieldFrom)) for x in ast.walk(fi.node)):
+                outcomes = [(s, ("return", s.env.get("__yield__", PyList([], "list"))) if (sig is None or sig[0] == "return") else sig)
+                            for s, sig in outcomes]
             rep.paths = len(outcomes)
             self.post_obligations(contract, fi, entry_env, outcomes)
         except OutOfSubset as e:
